@@ -1,7 +1,8 @@
 (* mutate/canonicalize_expr.py, mutate/chain.py, mutate/contract.py, mutate/utils.py, predicates.py *)
-From Coq Require Import List Bool Arith.
-From Y0 Require Import Base.ListSet Dsl.Syntax Dsl.Build.
+From Coq Require Import List Bool Arith String.
+From Y0 Require Import Base.ListSet Dsl.Syntax Dsl.Text Dsl.Build Dsl.Print.
 Import ListNotations.
+Open Scope list_scope.
 
 (* ensure_ordering: pass the given ordering through _upgrade_ordering, or sort the expression's variables *)
 Definition ensure_ordering (e : expr) (ordering : option (list var)) : list var :=
@@ -19,10 +20,20 @@ Fixpoint level_of (ordering : list var) (name : nat) : option nat :=
               end
   end.
 
-Definition canon_sorted (ordering : list var) (vars : list var) : option (list var) :=
+(* Canonicalizer._sorted. Repaired key: (level of the name, _variable_sort_key, to_y0) - variables sharing a name
+   (value marks, counterfactual copies) no longer keep their input order. [old] = pinned tree: the level alone. *)
+Definition canon_var_lt (old : bool) (ordering : list var) (a b : var) : bool :=
+  match level_of ordering (vn a), level_of ordering (vn b) with
+  | Some x, Some y =>
+      if Nat.ltb x y then true else if Nat.ltb y x then false
+      else if old then false
+      else var_sort_lt a b || (negb (var_sort_lt b a) && String.ltb (var_y0 a) (var_y0 b))
+  | _, _ => false
+  end.
+
+Definition canon_sorted (old : bool) (ordering : list var) (vars : list var) : option (list var) :=
   if forallb (fun v => match level_of ordering (vn v) with Some _ => true | None => false end) vars
-  then Some (stable_sort (fun a b => match level_of ordering (vn a), level_of ordering (vn b) with
-                                     | Some x, Some y => Nat.ltb x y | _, _ => false end) vars)
+  then Some (stable_sort (canon_var_lt old ordering) vars)
   else None.
 
 (* _flatten_product *)
@@ -45,7 +56,7 @@ Section Canon.
   Fixpoint cz (e : expr) : expr * list expr :=
     match e with
     | EProb pop ch pa =>
-        let r := match canon_sorted ordering ch, canon_sorted ordering pa with
+        let r := match canon_sorted old ordering ch, canon_sorted old ordering pa with
                  | Some c, Some p => prob_raw pop c p
                  | _, _ => EErr KeyError
                  end in (r, factors_of r)
@@ -150,7 +161,7 @@ Fixpoint recursive_contract (e : expr) : expr :=
 (* all(...) and "and" short-circuit: a False met first wins over a later TypeError *)
 Fixpoint has_markov_postcondition (e : expr) : option bool :=
   match e with
-  | EProb _ ch _ => Some (Nat.eqb (length ch) 1)
+  | EProb _ ch _ => Some (Nat.eqb (List.length ch) 1)
   | EProd es => (fix go (es : list expr) : option bool :=
                    match es with
                    | [] => Some true
